@@ -87,7 +87,7 @@ class WeightedFunction:
 
         # Logging attributes
         logger.debug(
-            f'Functions: {[f.pointer.__name__ for f in self.functions]} | Weights: {self.weights} | Built: {self.built}')
+            f'Functions: {[getattr(f.pointer, "__name__", "callable") for f in self.functions]} | Weights: {self.weights} | Built: {self.built}')
 
     def _create_strategy(self):
         """Creates a multi-objective strategy as the real pointer.
